@@ -521,7 +521,20 @@ def check_authorize(ctx):
                 p.outcome.expr is not None else None
             ok = False
             if isinstance(e, ast.Call) and prog.callee_of(auth, e) is enf:
-                pos = [U(a) for a in e.args]
+                # *PACK where PACK is a tuple / list written out earlier:
+                # its elements in place
+                flat = []
+                for a in e.args:
+                    inner = t.expand(a.value) if isinstance(
+                        a, ast.Starred) else None
+                    if isinstance(inner, ast.Name) and isinstance(
+                            t.en.defs.get(inner.id), (ast.Tuple, ast.List)):
+                        inner = t.en.defs[inner.id]
+                    if isinstance(inner, (ast.Tuple, ast.List)):
+                        flat.extend(inner.elts)
+                    else:
+                        flat.append(a)
+                pos = [U(a) for a in flat]
                 kws = {k.arg: U(k.value) for k in e.keywords}
                 names = auth.params[1:]
                 va = auth.node.args.vararg.arg if auth.node.args.vararg \
